@@ -5,6 +5,7 @@ from .c03 import sub_value
 from ..contracts import flux as CF, thermo, process as CP
 
 ID = "C06"
+FRAME_SENSITIVE = True        # the statement relates several calls / call histories: a certain write to state that outlives a call is a violation even where the engine cannot follow its effect
 MIN_OBLIGATIONS = 120
 TIMEOUT = dict(quick=180, thorough=900)
 X, Tt = var('x1'), var('T')
@@ -181,6 +182,7 @@ def obligations(cx):
         cx.ob("metric.ideal-selectivity.%s.inverts" % ct, r1.pc + r2.pc, eq(r1.value * r2.value, 1), function=name, statement="ideal selectivity inverts when the components are exchanged")
     cx.assume_note("solver and process swap lemmas use get_partial_pressures / calculate_partial_fluxes by contract; their own swap lemmas (proved above from the bodies) are applied by rewriting once the argument relation is discharged")
     cx.assume_note("ideal diffusion curves are element-wise calls of calculate_partial_fluxes (C08), so their symmetry is the solver swap lemma")
+    cx.no_hidden_state(function=None)
 
 
 
